@@ -10,11 +10,13 @@ EXPLANATION = ("Real Motl.update_coordinates/scale_coordinates/shift_positions/a
 ASSUMPTIONS = ["positions, shifts in [-1000,1000]; every orientation (angles as points of the unit circle)",
                "scale factor > 0; tomogram dimension in [1, 10000]",
                "a second, concrete particle in another tomogram accompanies the symbolic one to expose cross-row effects"]
-OUTSIDE = ["histories of length 3..6 are covered only through the one-step obligations from an arbitrary state plus the named two-step compositions",
+OUTSIDE = ["histories longer than 3 (quick) / 4 (thorough; every sequence over update/scale/shift/rotate/flip) are covered only through the one-step obligations from an arbitrary state",
            "float rounding (A0)"]
 BOUNDS = {"quick": {"particles": "1 symbolic + 1 concrete", "compositions": "2 steps"},
           "thorough": {"particles": "2 symbolic + 1 concrete", "compositions": "2 steps"}}
 EXPECTED_EXCEPTIONS = ()
+OPTS = {"max_paths": 1200}
+OPTS_THOROUGH = {"max_paths": 6000, "budget_s": 1500}
 
 
 def _second(tomo=2.0):
@@ -173,6 +175,79 @@ def h_flip_handedness(env, kind="Nx4", twice=False, single_tomo=False, order="so
             env.check("others_unchanged_%d" % i, others_unchanged(env, b, a, {"theta", "z", "shift_z"}))
 
 
+HIST_OPS = ["update", "scale", "shift", "rotate", "flip"]
+
+
+def _R_state(env, cm, r):
+    """Orientation matrix of a row of the CURRENT table inside a history.  Its angles were produced by as_euler from a known
+    matrix in an earlier step; by the contract of as_euler (from_euler(as_euler(M)) = M) that matrix is the row's orientation,
+    and the rotation algebra hands it back.  (The independent zxz formula R_zxz is used for every angle triple that is an
+    input; the one-step jobs decide the same obligations from arbitrary angle triples.)"""
+    if env.mode != "sym":
+        return _R(env, r)
+    M = cm.rot.from_euler("zxz", objcol([r["phi"], r["theta"], r["psi"]]), degrees=True).as_matrix()
+    return [[M[i, j] for j in range(3)] for i in range(3)]
+
+
+def h_history(env, length=3, index="default"):
+    """Histories: `length` operations chosen by solver forks (every sequence over HIST_OPS is a family of paths); each step
+    is checked against the state the previous steps REALLY left in the table (so rounding done by update_coordinates,
+    Euler angles re-derived by apply_rotation / flip_handedness, column dtypes and index labels are whatever the code produced)."""
+    cm, m, _ = _setup(env, 1, index)
+    S = [[1.0, 0.0, 0.0], [0.0, 1.0, 0.0], [0.0, 0.0, -1.0]]
+    for step in range(length):
+        k = env.choice("op%d" % step, list(range(len(HIST_OPS))))
+        if env.mode == "sym":
+            from sx import core
+            k = int(core.concretize(k)) if core.is_sym(k) else int(k)
+        op = HIST_OPS[int(k)]
+        pre = [row(m.df, i) for i in range(m.df.shape[0])]
+        Rb = [_R_state(env, cm, b) for b in pre]
+        tag = "step%d_%s" % (step, op)
+        if op == "update":
+            m.update_coordinates()
+        elif op == "scale":
+            f = env.real("factor%d" % step, 0.01, 100)
+            m.scale_coordinates(f)
+        elif op == "shift":
+            sv = [env.real("s%d_%d" % (step, q), -100, 100) for q in range(3)]
+            m.shift_positions(objcol(sv) if env.mode == "sym" else np.array(sv))
+        elif op == "rotate":
+            q = [env.angle("q%d_%d" % (step, j)) for j in range(3)]
+            Qm = R_zxz(env, *q)
+            m.apply_rotation(cm.rot.from_euler("zxz", objcol(q) if env.mode == "sym" else np.array(q), degrees=True))
+        else:
+            dz = [env.real("dimz%d_%d" % (step, t), 1, 10000) for t in (1, 2)]
+            m.flip_handedness(_dims(env, "Nx4", dz[0], dz[1]))
+        env.check(tag + "_row_count", env.true() if m.df.shape[0] == len(pre) else env.not_(env.true()))
+        if m.df.shape[0] != len(pre):
+            return
+        for i, b in enumerate(pre):
+            a = row(m.df, i)
+            pb, pa = _pos(b), _pos(a)
+            if op == "update":
+                env.check("%s_position_invariant_%d" % (tag, i), vec_eq(env, pa, pb))
+                for c in ("x", "y", "z"):
+                    env.check("%s_integer_%s_%d" % (tag, c, i), env.is_int(a[c]))
+                    env.check("%s_half_bound_%s_%d" % (tag, c, i), env.and_(env.le(a["shift_" + c], 0.5), env.ge(a["shift_" + c], -0.5)))
+                keep = {"x", "y", "z", "shift_x", "shift_y", "shift_z"}
+            elif op == "scale":
+                env.check("%s_scaled_position_%d" % (tag, i), vec_eq(env, pa, [v * f for v in pb]))
+                keep = {"x", "y", "z", "shift_x", "shift_y", "shift_z"}
+            elif op == "shift":
+                env.check("%s_moved_by_R_s_%d" % (tag, i), vec_eq(env, pa, [p_ + d for p_, d in zip(pb, mat_vec(Rb[i], sv))]))
+                keep = {"shift_x", "shift_y", "shift_z"}
+            elif op == "rotate":
+                env.check("%s_orientation_is_R_Q_%d" % (tag, i), mat_eq(env, _R(env, a), mat_mul(Rb[i], Qm)))
+                keep = {"phi", "theta", "psi"}
+            else:
+                d = dz[0] if float(b["tomo_id"]) == 1.0 else dz[1]
+                env.check("%s_mirror_position_%d" % (tag, i), vec_eq(env, pa, [pb[0], pb[1], d + 1 - pb[2]]))
+                env.check("%s_mirror_orientation_%d" % (tag, i), mat_eq(env, _R(env, a), mat_mul(S, mat_mul(Rb[i], S))))
+                keep = {"phi", "theta", "psi", "z", "shift_z"}
+            env.check("%s_others_unchanged_%d" % (tag, i), others_unchanged(env, b, a, keep))
+
+
 def h_get_coordinates(env):
     cm, m, before = _setup(env, 1)
     c = m.get_coordinates()
@@ -210,9 +285,10 @@ def jobs(tier, seed):
         ("h_shift_positions", {"n_sym": n, "inplace": True, "index": "gaps"}),
         ("h_apply_rotation", {"n_sym": n, "index": "gaps"}),
         ("h_apply_rotation", {"n_sym": n, "twice": True, "index": "reversed"}),
+        ("h_history", {"length": 3}),
     ]
     if tier == "thorough":
         j += [("h_update_coordinates", {"n_sym": 2}), ("h_scale_coordinates", {"n_sym": 2}),
               ("h_shift_positions", {"n_sym": 2, "inplace": True}), ("h_apply_rotation", {"n_sym": 2}),
-              ("h_flip_handedness", {"kind": "1x3", "twice": True})]
+              ("h_flip_handedness", {"kind": "1x3", "twice": True}), ("h_history", {"length": 4}), ("h_history", {"length": 3, "index": "gaps"})]
     return j
